@@ -7,7 +7,9 @@ evaluation order; scope rules; control flow; canonical errors), using PyArith / 
  programs built by a frame machine), GenData (models, enums, Option / Result, match, `?`) and GenCtl
  (if / elif / else and statement-level match chains with effectful conditions and one jump, inside every
  loop context), GenColl (strings, collections, comprehensions, closures, f-strings, tuples), GenObj (methods,
- mut self, field assignment, traits, inheritance) and GenDiv (the division family through every target form)
+ mut self, field assignment, traits, inheritance), GenDiv (the division family through every target form) and GenIter
+ (enumerate / zip / tuple unpacking / dict and set iteration / nested loops with jumps / Option helpers / `?` and `return`
+ inside loops and match arms / recursion / membership / conversions)
  enumerate / simulate programs; `Sound` (an accepted program never
  gets stuck) is checked on every generated program; each case is printed with Run(p) and feature tags.
 Binding:
@@ -52,6 +54,11 @@ def _uniq(rows, n=10 ** 9):
     return [seen[h] for h in sorted(seen)][:n]
 
 
+# tag prefixes of spec/GenIter.tla (stratification of the sample)
+ITER_TAGS = ("iter:", "enum-", "zip-", "for-unpack", "unpack-src:", "dict-", "one-entry", "loop-", "mut:", "outer", "inner", "opt:", "try:",
+             "return:", "arg:", "rec:", "set", "member:", "conv", "comp-")
+
+
 def run(ctx):
     rnd = common.rng(ctx, "c01")
     n_expr, n_prog, n_sim = (260, 140, 0) if ctx.quick else (2500, 1243, 1200)
@@ -73,6 +80,9 @@ def run(ctx):
         common.require_tlc_ok(ctx, gj, "GenObj / Sound")
         gj_sim = _uniq(common.tlc(ctx, "GenObj", cfg="GenObj_sim", workers=1, timeout=1500, simulate=400, depth=6)["cases"]["CASE"]) if not ctx.quick else []
         go_sim = _uniq(common.tlc(ctx, "GenColl", cfg="GenColl_sim", workers=1, timeout=1500, simulate=600, depth=6)["cases"]["CASE"]) if not ctx.quick else []
+        gi = common.tlc(ctx, "GenIter", cfg="GenIter_2", workers=8, timeout=6000, want_tags=("CASE", "DECLS"))
+        common.require_tlc_ok(ctx, gi, "GenIter / AllAccepted / Sound / OrderFree")
+        gi_sim = _uniq(common.tlc(ctx, "GenIter", cfg="GenIter_sim", workers=1, timeout=1500, simulate=300, depth=6)["cases"]["CASE"]) if not ctx.quick else []
         sim_rows = []
         if n_sim:
             gs = common.tlc(ctx, "GenProg", cfg="GenProg_s3", workers=8, timeout=1500, simulate=n_sim, depth=14)
@@ -87,7 +97,7 @@ def run(ctx):
             return list(rows)
         buckets = {}
         for r in rows:
-            key = tuple(sorted(t for t in r["feats"] if t.startswith(("bin:", "un:", "call:", "index:", "slice-shape:", "stmt:", "grp:", "match:", "pat:", "arm:", "data:", "subject:", "ctl:", "ctx:", "jump", "cond:", "matchform:", "coll:", "m:", "f:", "listcomp", "dictcomp", "closure", "setidx:", "n:fstr", "n:tuple", "n:tfield", "obj", "n:setfield", "n:ctord", "div:", "target:", "lhs:", "rhs:"))))
+            key = tuple(sorted(t for t in r["feats"] if t.startswith(("bin:", "un:", "call:", "index:", "slice-shape:", "stmt:", "grp:", "match:", "pat:", "arm:", "data:", "subject:", "ctl:", "ctx:", "jump", "cond:", "matchform:", "coll:", "m:", "f:", "listcomp", "dictcomp", "closure", "setidx:", "n:fstr", "n:tuple", "n:tfield", "obj", "n:setfield", "n:ctord", "div:", "target:", "lhs:", "rhs:") + ITER_TAGS)))
             buckets.setdefault(key, []).append(r)
         keys = sorted(buckets)
         rnd.shuffle(keys)
@@ -124,11 +134,17 @@ def run(ctx):
     universe += len(jrows)
     cases += [pipeline.obj_case(r, k, gj["cases"]["DECLS"][0]) for k, r in enumerate(pick(jrows, 160 if ctx.quick else 1500) + gj_sim)]
     cases += [pipeline.coll_case(r, k) for k, r in enumerate(pick(orows, 220 if ctx.quick else 2000) + go_sim)]
+    irows = gi["cases"]["CASE"]
+    universe += len(irows)
+    # single operations carry every construct in isolation (also the known-bad ones); pairs their interactions
+    ipick = pick([r for r in irows if r["nops"] == 1], 100 if ctx.quick else 400) + pick([r for r in irows if r["nops"] > 1], 160 if ctx.quick else 1200)
+    cases += [pipeline.iter_case(r, k, gi["cases"]["DECLS"][0]) for k, r in enumerate(ipick + gi_sim)]
     with ctx.timed("self_check"):
         rej = pipeline.self_check_exprs(ctx, [c for c in cases if c["kind"] == "expr"])
         rej.update(pipeline.self_check_progs(ctx, [c for c in cases if c["kind"] in ("prog", "coll", "obj", "div")]))
         rej.update(pipeline.self_check_data(ctx, [c for c in cases if c["kind"] == "data"]))
         rej.update(pipeline.self_check_ctl(ctx, [c for c in cases if c["kind"] == "ctl"]))
+        rej.update(pipeline.self_check_iter(ctx, [c for c in cases if c["kind"] == "iter"]))
     for cid, err in rej.items():
         c = next(x for x in cases if x["id"] == cid)
         ctx.fail("parse:rendered-program-rejected", {"src": c["body"], "err": err}, "a documented form does not parse", tags=c["tags"])
@@ -140,12 +156,12 @@ def run(ctx):
     for c, e in zip(cases, ev):
         sym = e["symptom"]
         stats[e["stage"] + (":" + sym if sym else ":ok")] = stats.get(e["stage"] + (":" + sym if sym else ":ok"), 0) + 1
-        src = " ; ".join(c["body"][-4:]) if c["kind"] in ("prog", "data") else (c["decls"] if c["kind"] == "ctl" else ("\n".join(c["body"]) if c["kind"] in ("coll", "obj", "div") else c["body"][-1]))
+        src = " ; ".join(c["body"][-4:]) if c["kind"] in ("prog", "data") else (c["decls"] if c["kind"] == "ctl" else ("\n".join(c["body"]) if c["kind"] in ("coll", "obj", "div", "iter") else c["body"][-1]))
         if e["stage"] in ("ran", "abort"):
             n_ran += 1
             distinct.add(src)
             if sym:
-                ctx.fail(sym, {"src": c["body"], "decls": c["decls"] if c["kind"] == "ctl" else "", "detail": e["detail"], "expected": [render.value_text(v) for v in c["expect"]["out"]],
+                ctx.fail(sym, {"src": c["body"], "decls": c["decls"] if c["kind"] in ("ctl", "iter") else "", "detail": e["detail"], "expected": [render.value_text(v) for v in c["expect"]["out"]],
                                "expected_status": c["expect"]["status"], "expected_err": c["expect"]["err"]},
                          "compiled behaviour differs from the specification's Run(p)", tags=c["tags"])
         # emit / build / check stages: not C01's verdict (C02 judges them)
@@ -184,6 +200,10 @@ def run(ctx):
         c0 = cases[len(cases) // 2]
         ctx.sample({"case_source": c0["body"], "spec_out": [render.value_text(v) for v in c0["expect"]["out"]],
                     "spec_status": c0["expect"]["status"], "tags": c0["tags"]})
+    # multi-module projects (spec/GenMod.tla, lib/modproj.py): the same declarations split over several files
+    with ctx.timed("modproj"):
+        from lib import modproj
+        modproj.run(ctx)
     common.write_evidence(ctx, "translation_validation", {
         "programs": n_ran,
         "disagreements_checked": sum(v for k, v in stats.items() if k.startswith(("ran:run", "abort:run"))),
